@@ -49,7 +49,12 @@ def run(sid):
                 ok = not still
             else:
                 ok = rc == 0
-                if not ok: detail = out[-400:]
+                if not ok:
+                    open("/tmp/lead/suite-%s.log" % sid, "w").write(out)
+                    # no failing package could be identified (e.g. a killed test binary): run the whole suite once more
+                    rc3, out3 = sh("go test -p 8 -vet=off -count=1 -timeout 40m ./...", cwd=wt, timeout=5400)
+                    ok = rc3 == 0
+                    detail = "first run ended rc=%d without a FAIL <pkg> line; second full run: %s" % (rc, "pass" if ok else out3[-300:])
             cl["suite_with_patch"] = "pass" if ok else "fail"; cl["suite_detail"] = detail
             cl["suite_cmd"] = "go test -vet=off -count=1 ./... (scratch worktree of /repo HEAD + patch.diff)"
         cl["suite_head"] = subprocess.run(["git", "-C", "/repo", "rev-parse", "--short", "HEAD"], capture_output=True, text=True).stdout.strip()
